@@ -14,7 +14,7 @@ import (
 // World `merge` (C12): chans.Merge over all four arity paths, chans.Replicate, stream.Merge.
 
 func init() {
-	Register(&World{Name: "merge", Props: []string{"C12"}, Concurrent: true, MaxSteps: 6000, Run: mergeWorld})
+	Register(&World{Name: "merge", Episodes: true, Props: []string{"C12"}, Concurrent: true, MaxSteps: 6000, Run: mergeWorld})
 	ExpectedProbes["merge"] = []string{"chans-arity-0", "chans-arity-1", "chans-arity-2", "chans-arity-3", "chans-arity-many", "input-closed-immediately", "replicate-0-dsts", "replicate-many-dsts", "stream-merge-error", "stream-merge-close-early", "stream-merge-zero-inputs", "stream-merge-end", "stream-merge-next-ctx-expired"}
 }
 
@@ -52,6 +52,10 @@ func chansMergeScenario(r *R) {
 
 func chansMergeRun[T any](r *R, enc func(int) T, dec func(T) int) {
 	arity := []int{2, 0, 1, 3, 4, 6}[r.Choose(6, "arity")]
+	if r.Choose(24, "arity-dozens") == 23 {
+		arity = []int{63, 64, 65, 70, 129}[r.Choose(5, "arity-dozens-n")] // around multiples of 64
+		r.Probe("chans-arity-dozens")
+	}
 	if r.Choose(400, "arity-huge") == 399 {
 		chansMergeHuge[T](r)
 		return
